@@ -546,6 +546,11 @@ def run_cases(ctx, cases, compare=None, classify=None, limit=10, timeout=900):
     return results, ndis
 
 
+def compare_fuel(case, m, i):
+    """equality, except that a model that ran out of its fuel decides nothing"""
+    return m == i or m.startswith("(outoffuel)")
+
+
 def replay_case(ctx, path, compare=None):
     payload = json.load(open(path))
     case = payload["case"]
